@@ -8,6 +8,7 @@ import (
 	"sort"
 	"strconv"
 	"strings"
+	"sync"
 
 	"golang.org/x/tools/go/ssa"
 )
@@ -1363,7 +1364,43 @@ func constTerm(c *ssa.Const) *Term {
 	if b, ok := c.Type().Underlying().(*types.Basic); ok && b.Info()&types.IsBoolean != 0 {
 		return &Term{Op: "const", Aux: s, Typ: c.Type()}
 	}
+	if IsBoolEnum(c.Type()) {
+		// a two-valued unexported enum is a bool under another name: its zero constant reads false, the other true,
+		// so that `v == abort` is `!v` like `!ok` (a verdict / state flag re-represented as an enum)
+		if s == "0" {
+			return &Term{Op: "const", Aux: "false", Typ: c.Type()}
+		}
+		return &Term{Op: "const", Aux: "true", Typ: c.Type()}
+	}
 	return &Term{Op: "const", Aux: s, Typ: c.Type()}
+}
+
+var boolEnumCache sync.Map
+
+// IsBoolEnum: t is an unexported named type with an integer underlying type for which its package declares
+// exactly two constants, 0 and 1 - a bool written as an enum (`type recovery uint8; const (abort recovery = iota;
+// resume)`).
+func IsBoolEnum(t types.Type) bool {
+	nt, ok := t.(*types.Named)
+	if !ok || nt.Obj() == nil || nt.Obj().Pkg() == nil || nt.Obj().Exported() {
+		return false
+	}
+	if v, hit := boolEnumCache.Load(nt); hit {
+		return v.(bool)
+	}
+	res := false
+	if b, isB := nt.Underlying().(*types.Basic); isB && b.Info()&types.IsInteger != 0 {
+		vals := map[string]int{}
+		sc := nt.Obj().Pkg().Scope()
+		for _, name := range sc.Names() {
+			if k, isK := sc.Lookup(name).(*types.Const); isK && types.Identical(k.Type(), nt) {
+				vals[k.Val().ExactString()]++
+			}
+		}
+		res = len(vals) == 2 && vals["0"] == 1 && vals["1"] == 1
+	}
+	boolEnumCache.Store(nt, res)
+	return res
 }
 
 // zeroTerm: the zero value of type t - a proper constant for the basic kinds (so that comparisons with it fold),
@@ -1372,6 +1409,8 @@ func zeroTerm(t types.Type) *Term {
 	switch u := t.Underlying().(type) {
 	case *types.Basic:
 		switch {
+		case u.Info()&types.IsInteger != 0 && IsBoolEnum(t):
+			return &Term{Op: "const", Aux: "false", Typ: t}
 		case u.Info()&types.IsInteger != 0:
 			return &Term{Op: "const", Aux: "0", Typ: t}
 		case u.Info()&types.IsBoolean != 0:
